@@ -1,0 +1,53 @@
+//! Entry points for the external verification harness: each pass callable in isolation, plus
+//! per-thread counters telling which loop sub-pass actually fired.
+//! Compiled only with `--cfg samlang_verif`; nothing here changes behaviour.
+
+use samlang_ast::mir::{Function, Sources};
+use samlang_heap::{Heap, TempPStrCounter};
+use std::cell::RefCell;
+use std::collections::BTreeMap;
+
+thread_local! {
+  static FIRED: RefCell<BTreeMap<&'static str, u64>> = const { RefCell::new(BTreeMap::new()) };
+}
+
+pub(crate) fn note(what: &'static str) {
+  FIRED.with(|f| *f.borrow_mut().entry(what).or_insert(0) += 1);
+}
+
+/// Returns and clears the sub-pass counters recorded on the calling thread.
+pub fn take_fired() -> BTreeMap<&'static str, u64> {
+  FIRED.with(|f| std::mem::take(&mut *f.borrow_mut()))
+}
+
+pub fn conditional_constant_propagation(function: &mut Function) {
+  super::conditional_constant_propagation::optimize_function(function)
+}
+
+pub fn scalar_replacement(function: &mut Function) {
+  super::scalar_replacement::optimize_function(function)
+}
+
+pub fn loop_optimizations(function: &mut Function, counter: &TempPStrCounter) {
+  super::loop_optimizations::optimize_function(function, counter)
+}
+
+pub fn common_subexpression_elimination(function: &mut Function, counter: &TempPStrCounter) {
+  super::common_subexpression_elimination::optimize_function(function, counter)
+}
+
+pub fn local_value_numbering(function: &mut Function) {
+  super::local_value_numbering::optimize_function(function)
+}
+
+pub fn dead_code_elimination(function: &mut Function) {
+  super::dead_code_elimination::optimize_function(function)
+}
+
+pub fn inlining(functions: Vec<Function>, heap: &mut Heap) -> Vec<Function> {
+  super::inlining::optimize_functions(functions, heap)
+}
+
+pub fn unused_name_elimination(sources: &mut Sources) {
+  super::unused_name_elimination::optimize_sources(sources)
+}
